@@ -4,7 +4,7 @@
    One pool built as `WorkPool(0, 0, 0, mode, ring_size)` (no OS-thread workers); photon threads of the
    single vCPU run `join_current_vcpu_into_workpool()` (= main_loop), `call()`, `async_call()` and the
    destructor.  What is modelled, branch by branch:
-     thread/workerpool.cpp 62-72 ~impl, 74-83 enqueue, 84-93 do_call, 105-115 add/remove_vcpu,
+     thread/workerpool.cpp 62-72 ~impl, 74-83 enqueue, 84-96 do_call (with fix f4b1a02), 105-115 add/remove_vcpu,
                            122-148 main_loop (mode -1, 0, >0), 150-156 delegate_helper
      common/lockfree_queue.h 653-678 SendBackoff::push_backoff<PhotonPause>, 630-651 notify_senders,
                            870-899 FlexRingChannel::send, 901-933 ::recv; the MPMC ring itself (227-271)
@@ -560,11 +560,20 @@ Section STEP.
     let n := u_naccepted (usr st) in
     let st1 := set_task st id (mkCT (ct_call ct) (ct_acts ct) (ct_runs ct) (ct_fin ct) (ct_del ct) (ct_sem ct) n) in
     upd_u st1 (fun u => u_set_ghost u (Datatypes.S n) (LSubmit c :: u_alog u)).
+  Definition await_finish (st : S) (id : nat) : S * action U :=
+    let st1 := alog st (LReturn (tno st id)) in
+    (st1, ARet (ct_fin (get_task st1 id)) 0).              (* the finished flag right after call() returned *)
+  (* cpp 95 `while (aop.suspend() != 0) {}`: a wait given up on ESHUTDOWN / ETIMEDOUT is started again *)
   Definition await (st : S) (t : tid) (id : nat) (first : bool) : S * action U :=
     match (if first then sem_enter st (SA id) else sem_resume st t (SA id)) with
     | (st1, SemDone r e) =>
-        let st2 := alog st1 (if r =? 0 then LReturn (tno st1 id) else LIntr (tno st1 id)) in
-        (st2, ARet (ct_fin (get_task st2 id)) 0)            (* the finished flag right after call() returned *)
+        if r =? 0 then await_finish st1 id
+        else
+          let st2 := alog st1 (LIntr (tno st1 id)) in
+          match sem_enter st2 (SA id) with
+          | (st3, SemDone _ _) => await_finish st3 id
+          | (st3, SemBlock) => (st3, ASleep MAX64 (Some (qid_await id)) None [20])
+          end
     | (st1, SemBlock) => (st1, ASleep MAX64 (Some (qid_await id)) None [20])
     end.
   Definition submit_step (st : S) (t : tid) (p id : nat) (acts : list Z) (c : bool) (k : kont) : S * action U :=
@@ -657,7 +666,7 @@ Definition modelA_init := C08_Model.init.
 Definition modelA_obs := C08_Model.obs.
 (* replay of the ghost log through the all-interleavings model: Some final state = accepted *)
 Definition replay (inline : bool) (cap njoin : nat) (ls : list label) : option C08_Model.state :=
-  C08_Model.run (C08_Model.init inline cap 0 njoin true) ls.
+  C08_Model.run (C08_Model.init inline cap 0 njoin false) ls.
 Fixpoint replay_prefix (s : C08_Model.state) (ls : list label) (n : nat) : nat + C08_Model.state :=
   match ls with
   | [] => inr s
